@@ -656,20 +656,22 @@ func (s *SpecValidator) validateParameters() *Result {
 					res.AddWarnings(pathStrippedParamGarbledMsg(pathToAdd))
 				}
 
-				// Check uniqueness of stripped paths
-				if _, found := methodPaths[method][pathToAdd]; found {
+				// Check uniqueness of stripped paths.
+				// The key keeps parameters apart from literal segments: "/a/X" does not overlap with "/a/{id}".
+				pathKey := pathHelp.anonymizeParametersInPath(path)
+				if _, found := methodPaths[method][pathKey]; found {
 
 					// Sort names for stable, testable output
-					if strings.Compare(path, methodPaths[method][pathToAdd]) < 0 {
-						res.AddErrors(pathOverlapMsg(path, methodPaths[method][pathToAdd]))
+					if strings.Compare(path, methodPaths[method][pathKey]) < 0 {
+						res.AddErrors(pathOverlapMsg(path, methodPaths[method][pathKey]))
 					} else {
-						res.AddErrors(pathOverlapMsg(methodPaths[method][pathToAdd], path))
+						res.AddErrors(pathOverlapMsg(methodPaths[method][pathKey], path))
 					}
 				} else {
 					if _, found := methodPaths[method]; !found {
 						methodPaths[method] = map[string]string{}
 					}
-					methodPaths[method][pathToAdd] = path // Original non stripped path
+					methodPaths[method][pathKey] = path // Original non stripped path
 
 				}
 			}
